@@ -589,9 +589,24 @@ pub open spec fn others_ok(gs: Seq<IppAttributeGroup>, others: Seq<(int, Seq<Str
         && key_perm(others[k].1, gs[others[k].0].sattrs())
 }
 
+/// indices of the non-operation groups among the first `n` groups, in message order
+pub open spec fn non_op_idx(gs: Seq<IppAttributeGroup>, n: int) -> Seq<int>
+    decreases n
+{
+    if n <= 0 { Seq::<int>::empty() } else {
+        let p = non_op_idx(gs, n - 1);
+        if gs[n - 1].stag() != DelimiterTag::OperationAttributes { p.push(n - 1) } else { p }
+    }
+}
+
+pub open spec fn others_idx(others: Seq<(int, Seq<String>)>) -> Seq<int> {
+    others.map_values(|o: (int, Seq<String>)| o.0)
+}
+
 /// What the attribute-section encoder must produce for groups `gs`: the operation-attributes tag; the first
 /// operation group's attributes, each exactly once, the RFC-ordered ones first; then non-operation groups of
-/// the message, each introduced by its own tag with its attributes exactly once; then the end tag, once, last.
+/// the message — all of them, in message order —, each introduced by its own tag with its attributes exactly once; then the
+/// end tag, once, last.
 /// `ops` / `others` are the iteration orders the hash maps happened to take (existentially quantified).
 pub open spec fn attrs_enc_ok(gs: Seq<IppAttributeGroup>, b: Seq<u8>, ops: Seq<String>, others: Seq<(int, Seq<String>)>) -> bool {
     let i0 = first_op(gs);
@@ -599,6 +614,8 @@ pub open spec fn attrs_enc_ok(gs: Seq<IppAttributeGroup>, b: Seq<u8>, ops: Seq<S
             + others_enc(gs, others, others.len()) + s1(0x03)
     &&& i0 < gs.len() ==> key_perm(ops, gs[i0].sattrs()) && ranks_sorted(gs[i0].sattrs(), ops)
     &&& others_ok(gs, others)
+    // every non-operation group of the message is emitted, in message order
+    &&& others_idx(others) =~= non_op_idx(gs, gs.len() as int)
 }
 
 /// preconditions of the attribute-section encoder: every value within the wire limits (the domain of C01/C03)
